@@ -9,10 +9,16 @@
      _validate_outcome_match     416-519   outcome_match
      _strip_last_applied_annotation 530-550  strip_last_applied
      _validate_match             553-617   tmatch_fuel / tmatch
-     _obj_to_key, _list_to_object 620-627  obj_key / item_key / keyed / iter_items / list_to_object
-     _validate_dict_match        630-668   dict_match (set_keys, map_fields, entry_match)
-     _validate_list_match        671-688   list_match
-     _validate_set_match         691-728   set_match
+     _obj_to_key, _list_to_object 620-627  obj_key / item_key / keyed
+     _validate_dict_match        630-677   dict_match (set_keys, map_fields, entry_match)
+     _is_object_list             680-683   object_list (keyed_list = object_list then keyed)
+     _validate_list_match        686-703   list_match
+     _validate_set_match         706-745   set_match (members are (is_bool, value) pairs: strict_eq)
+
+   Follows the repaired code (commits 58c8051, 87fca03): under a map directive
+   a value that is not a list of objects is a mismatch (no raise; '' / {} no
+   longer stand for the empty list), and set membership keeps booleans and
+   numbers apart.
 
    and of how prepare.py:216-239 turns `expectOutcome` into the expected
    outcome (predicate_helpers.predicate_to_koreo_result)         expect_outcome_of.
@@ -176,12 +182,28 @@ Definition map_fields (t : list (string * json)) : option (list (string * list j
 
 Definition in_pyeq (x : json) (l : list json) : bool := existsb (py_eq x) l.
 
-(* _validate_set_match: set() of an unhashable member raises TypeError which
-   is caught and reported as a mismatch; otherwise mutual inclusion under
-   Python's hash/== (True == 1 == 1.0) *)
+Definition is_bool (j : json) : bool := match j with JBool _ => true | _ => false end.
+Definition is_map (j : json) : bool := match j with JMap _ => true | _ => false end.
+
+(* equality of the pairs (isinstance(v, bool), v): Python ==, but a boolean is
+   only equal to a boolean *)
+Definition strict_eq (x y : json) : bool := py_eq x y && Bool.eqb (is_bool x) (is_bool y).
+
+Definition in_strict (x : json) (l : list json) : bool := existsb (strict_eq x) l.
+
+(* _validate_set_match: building the set of an unhashable member raises
+   TypeError which is caught and reported as a mismatch; otherwise mutual
+   inclusion of the (is_bool, value) pairs *)
 Definition set_match (tl al : list json) : bool :=
   forallb hashable tl && forallb hashable al &&
-  forallb (fun x => in_pyeq x al) tl && forallb (fun y => in_pyeq y tl) al.
+  forallb (fun x => in_strict x al) tl && forallb (fun y => in_strict y tl) al.
+
+(* _is_object_list: the items when the value is a list of dicts *)
+Definition object_list (v : json) : option (list json) :=
+  match v with
+  | JList l => if forallb is_map l then Some l else None
+  | _ => None
+  end.
 
 Definition plain_keys (kvs : list (string * json)) : list string :=
   filter (fun k => negb (is_directive k)) (map fst kvs).
@@ -232,20 +254,11 @@ Section Match.
         end
     end.
 
-  (* what iterating the value yields: list items, the characters of a str,
-     the keys of a dict; None = not iterable *)
-  Definition iter_items (v : json) : option (list json) :=
-    match v with
-    | JList l => Some l
-    | JStr s => Some (map JStr (utf8_chars s))
-    | JMap m => Some (map JStr (map fst m))
-    | _ => None
-    end.
-
-  (* _list_to_object on any value *)
-  Definition list_to_object (fields : list json) (v : json) : option (list (string * json)) :=
-    match iter_items v with
-    | Some items => keyed fields items []
+  (* a map-directed value read as the collection keyed by the fields:
+     None = not a list of objects, or _list_to_object raises (unhashable field) *)
+  Definition keyed_list (fields : list json) (v : json) : option (list (string * json)) :=
+    match object_list v with
+    | Some l => keyed fields l []
     | None => None
     end.
 
@@ -257,9 +270,13 @@ Section Match.
                (k : string) (v w : json) : mres :=
       match lookup k mf with
       | Some fields =>
-          match list_to_object fields v, list_to_object fields w with
-          | Some tobj, Some aobj => rec (JMap tobj) (JMap aobj) false
-          | _, _ => MRaised
+          match object_list v, object_list w with
+          | Some lv, Some lw =>
+              match keyed fields lv [], keyed fields lw [] with
+              | Some tobj, Some aobj => rec (JMap tobj) (JMap aobj) false
+              | _, _ => MRaised                  (* unhashable field *)
+              end
+          | _, _ => MDone false                  (* "expected an array of objects" *)
           end
       | None => rec v w (mem_str k sk)
       end.
